@@ -51,6 +51,7 @@ ACK = b"\x0a"
 
 class SimNTAG21x(object):
     tech = "A"
+    PRODUCTS = PRODUCTS     # a subclass may bring its own table (vlib.simnxp)
 
     def __init__(self, product="NTAG213", pwd=None, pack=None, auth0=0xFF,
                  prot=False, uid=bytes.fromhex("04112233445566"), ndef=b"",
@@ -59,7 +60,7 @@ class SimNTAG21x(object):
         auth0: first protected page (FFh = protection off); prot: reads need
         authentication too; ndef: initial NDEF message bytes (formatted tag),
         None = unformatted (CC all zero)"""
-        version, pages, cfgpage, cc2 = PRODUCTS[product]
+        version, pages, cfgpage, cc2 = self.PRODUCTS[product]
         self.product = product
         self.version = bytes.fromhex(version)
         self.pages = pages
